@@ -102,6 +102,48 @@ def main():
     depth = 3 if quick else 5
     draw_cap = 5 if quick else 12
     limit = 400000 if quick else 20000000
+    # ---- distinct hints that print alike, wrapped one after the other (lead worker) -------------------------------
+    if W.is_lead():
+        import typing as _t
+
+        def _mk():
+            class Record:
+                pass
+            return Record
+        R1, R2 = _mk(), _mk()
+        TVI, TVS = _t.TypeVar('T', bound=int), _t.TypeVar('T', bound=str)
+        NTI, NTS = _t.NewType('N', int), _t.NewType('N', str)
+        twins = [('Record', R1, R2, R1(), R2()), ('list[Record]', list[R1], list[R2], [R1()], [R2()]),
+                 ('TypeVar T', TVI, TVS, 1, 's'), ('NewType N', NTI, NTS, 1, 's'), ('List[T]', _t.List[TVI], _t.List[TVS], [1], ['s']),
+                 ('Optional[Record]', _t.Optional[R1], _t.Optional[R2], R1(), R2()), ('dict[str, Record]', dict[str, R1], dict[str, R2], {'k': R1()}, {'k': R2()})]
+        for i in (W.cases('twins', len(twins)) if W.replay_case else range(len(twins))):
+            label, h1, h2, x1, x2 = twins[i]
+            cs = engine.ConfSpec()
+            subjects = []
+            for which, h in (('first', h1), ('second', h2), ('first again', h1)):
+                try:
+                    subjects.append((which, engine.Subject(h, cs)))
+                except Exception as e:   # noqa
+                    W.violation('harness-error', f'Subject raised {e!r}', 'twins', i, dict(hint=label))
+            for which, subj in subjects:
+                if subj.prep_error:
+                    continue
+                for x in (x1, x2):
+                    vs = {}
+                    for ep in engine.ENTRY_POINTS:
+                        out = subj.run(ep, x, 0)
+                        if out.verdict != 'skip':
+                            vs[ep] = out.verdict
+                            W.count('checks')
+                    W.count('comparisons')
+                    W.evaluate(('twins', label, which, short(x, 40)))
+                    if len(set(vs.values())) > 1:
+                        W.violation('entry-points-disagree:same-repr-hints',
+                                    f'two distinct hints printing as {label}: the {which} one gives {vs} for {short(x, 60)}',
+                                    'twins', i, dict(hint=label, which=which, obj=short(x, 100), verdicts=vs))
+                        break
+        W.count('twin_cases', len(twins))
+
     for idx in W.cases('rand', limit):
         rng = W.rng('rand', idx)
         try:
